@@ -1,9 +1,11 @@
 import Np.Model.Print
 import Np.Model.Text
-/-! Mathlib-free model of the printed TEXT of a polynomial with integer coefficients (C16) and of a reader for that
-text. Strings are lists of code points (`Text.Str`); the display strings are the defaults: multiply sign `*`,
-exponent sign `**`, names `q<decimal index>`. `termStr`/`renderStr` mirror `Print.termText`/`Print.render`
-(and `_to_string` in `array_function/array_repr.py`); `readStr` is a lexer/parser of that format. -/
+/-! Mathlib-free model of the printed TEXT of a polynomial (C16) and of a reader for that text. Strings are lists of
+code points (`Text.Str`); the display strings are the defaults: multiply sign `*`, exponent sign `**`, names `q<decimal
+index>`. The coefficient type enters through a `Codec` (text of a coefficient, a reader for it, the coefficients `1` and
+`-1` that are elided in front of a monomial, the text of zero); `intCodec` is `str()` of Python / numpy integers.
+`termStr`/`renderStr` mirror `Print.termText`/`Print.render` (and `_to_string` in `array_function/array_repr.py`);
+`readStr` is a lexer/parser of that format. -/
 namespace Np.PrintText
 open Np.Text Np.Print
 
@@ -17,6 +19,16 @@ def qch : Nat := 113
 /-- `str` of a Python/numpy integer: optional minus, then the decimal digits -/
 def showInt (c : Int) : Str := if c < 0 then minus :: digits c.natAbs else digits c.natAbs
 
+/-- how a coefficient type is written and read: `showC` is `str()` of the numpy scalar, `readC` reads such a text back,
+`one` / `negOne` are the coefficients `_to_string` elides in front of a monomial, `zeroStr` is what the zero polynomial
+prints -/
+structure Codec (C : Type) where
+  showC : C → Str
+  readC : Str → Option C
+  one : C
+  negOne : C
+  zeroStr : Str
+
 /-- the default indeterminate name `q<idx>` -/
 def nameStr (n : Nat) : Str := qch :: digits n
 
@@ -29,22 +41,22 @@ def termStep (out : Str) (en : Nat × Nat) : Str :=
     if en.1 > 1 then out ++ [star, star] ++ digits en.1 else out
 
 /-- text of one term (mirror of `Print.termText`) -/
-def termStr (names : List Nat) (t : Tok Int) : Str :=
-  let head := if t.coefShown then showInt t.coef else if t.bareMinus then [minus] else []
+def termStr {C : Type} (K : Codec C) (names : List Nat) (t : Tok C) : Str :=
+  let head := if t.coefShown then K.showC t.coef else if t.bareMinus then [minus] else []
   (List.zip t.expo names).foldl termStep head
 
 /-- `s.startswith("-")` -/
 def startsMinus (s : Str) : Bool := s.head? == some minus
 
 /-- one pass of the loop over the terms: `+` in front unless first or starting with `-` -/
-def renderStep (names : List Nat) (acc : Str × Bool) (t : Tok Int) : Str × Bool :=
-  let s := termStr names t
+def renderStep {C : Type} (K : Codec C) (names : List Nat) (acc : Str × Bool) (t : Tok C) : Str × Bool :=
+  let s := termStr K names t
   let s := if acc.2 && !startsMinus s then plus :: s else s
   (acc.1 ++ s, true)
 
-/-- the whole text (mirror of `Print.render`); no terms prints `0` -/
-def renderStr (names : List Nat) (toks : List (Tok Int)) : Str :=
-  if toks.isEmpty then [48] else (toks.foldl (renderStep names) ([], false)).1
+/-- the whole text (mirror of `Print.render`); no terms prints the zero of the coefficient type -/
+def renderStr {C : Type} (K : Codec C) (names : List Nat) (toks : List (Tok C)) : Str :=
+  if toks.isEmpty then K.zeroStr else (toks.foldl (renderStep K names) ([], false)).1
 
 /-! ### reader -/
 
@@ -54,6 +66,9 @@ def readInt : Str → Option Int
   | c :: cs =>
     if c == minus then (ofDigits cs).map fun n => -Int.ofNat n
     else (ofDigits (c :: cs)).map Int.ofNat
+
+/-- `str()` of Python / numpy integers -/
+def intCodec : Codec Int := ⟨showInt, readInt, 1, -1, [48]⟩
 
 /-- lexer, level 1: cut at every `+`/`-`; the pair is (text before the first sign, pieces after it); a `-` stays
 with the piece it starts, a `+` is dropped -/
@@ -108,41 +123,41 @@ def buildExpo (names : List Nat) (fs : List (Nat × Nat)) : Option Expo :=
     some (names.map fun n => (fs.lookup n).getD 0)
   else none
 
-def finish (names : List Nat) (c : Int) (fs : List (Str × Option Str)) : Option (Int × Expo) :=
+def finish {C : Type} (names : List Nat) (c : C) (fs : List (Str × Option Str)) : Option (C × Expo) :=
   match readFactors fs with
   | some l => (buildExpo names l).map fun e => (c, e)
   | none => none
 
 /-- one signed term: `*`-separated factors, a leading numeric factor is the coefficient, none means `1`
 (`-1` after a bare minus) -/
-def readTerm (names : List Nat) (s : Str) : Option (Int × Expo) :=
+def readTerm {C : Type} (K : Codec C) (names : List Nat) (s : Str) : Option (C × Expo) :=
   match regroup (splitSep star s) with
   | [] => none
   | (p, pw) :: rest =>
     match p with
     | [] => none
     | c :: cs =>
-      if c == qch then finish names 1 ((p, pw) :: rest)
-      else if c == minus && cs.head? == some qch then finish names (-1) ((cs, pw) :: rest)
+      if c == qch then finish names K.one ((p, pw) :: rest)
+      else if c == minus && cs.head? == some qch then finish names K.negOne ((cs, pw) :: rest)
       else match pw with
         | some _ => none
         | none =>
-          match readInt p with
+          match K.readC p with
           | some k => finish names k rest
           | none => none
 
-def readTerms (names : List Nat) : List Str → Option (List (Int × Expo))
+def readTerms {C : Type} (K : Codec C) (names : List Nat) : List Str → Option (List (C × Expo))
   | [] => some []
   | s :: ss =>
-    match readTerm names s, readTerms names ss with
+    match readTerm K names s, readTerms K names ss with
     | some a, some as => some (a :: as)
     | _, _ => none
 
 /-- the reader: the terms (coefficient, exponent row) of a printed polynomial, in the printed order -/
-def readStr (names : List Nat) (s : Str) : Option (List (Int × Expo)) :=
+def readStr {C : Type} (K : Codec C) (names : List Nat) (s : Str) : Option (List (C × Expo)) :=
   match cutTerms s with
   | [] => none
-  | ts => readTerms names ts
+  | ts => readTerms K names ts
 
 /-! ### checks -/
 
@@ -151,19 +166,19 @@ private def tok (c : Int) (e : Expo) : Tok Int :=
   let mono := e.any (· != 0)
   { coef := c, expo := e, coefShown := !(mono && (c == 1 || c == -1)), bareMinus := mono && c == -1 }
 
-example : renderStr [0, 1] [tok 2 [2, 1], tok (-1) [0, 1], tok 1 [0, 0]] = str "2*q0**2*q1-q1+1" := by decide +kernel
-example : readStr [0, 1] (str "2*q0**2*q1-q1+1") = some [(2, [2, 1]), (-1, [0, 1]), (1, [0, 0])] := by
+example : renderStr intCodec [0, 1] [tok 2 [2, 1], tok (-1) [0, 1], tok 1 [0, 0]] = str "2*q0**2*q1-q1+1" := by decide +kernel
+example : readStr intCodec [0, 1] (str "2*q0**2*q1-q1+1") = some [(2, [2, 1]), (-1, [0, 1]), (1, [0, 0])] := by
   decide +kernel
-example : renderStr [0, 10] [tok (-1) [3, 0], tok (-12) [1, 11], tok 1 [0, 1], tok (-1) [0, 0]]
+example : renderStr intCodec [0, 10] [tok (-1) [3, 0], tok (-12) [1, 11], tok 1 [0, 1], tok (-1) [0, 0]]
     = str "-q0**3-12*q0*q10**11+q10-1" := by decide +kernel
-example : readStr [0, 10] (str "-q0**3-12*q0*q10**11+q10-1")
+example : readStr intCodec [0, 10] (str "-q0**3-12*q0*q10**11+q10-1")
     = some [(-1, [3, 0]), (-12, [1, 11]), (1, [0, 1]), (-1, [0, 0])] := by decide +kernel
-example : renderStr [0] [] = str "0" := by decide +kernel
-example : readStr [0] (str "0") = some [(0, [0])] := by decide +kernel
-example : readStr [0, 1] (str "q0*q0") = none := by decide +kernel      -- repeated name
-example : readStr [0, 1] (str "q2") = none := by decide +kernel         -- unknown name
-example : readStr [0, 1] (str "q0***2") = none := by decide +kernel
-example : readStr [0, 1] (str "q0++q1") = none := by decide +kernel
-example : readStr [0, 1] (str "2*") = none := by decide +kernel
-example : readStr [0, 1] (str "") = none := by decide +kernel
+example : renderStr intCodec [0] [] = str "0" := by decide +kernel
+example : readStr intCodec [0] (str "0") = some [(0, [0])] := by decide +kernel
+example : readStr intCodec [0, 1] (str "q0*q0") = none := by decide +kernel      -- repeated name
+example : readStr intCodec [0, 1] (str "q2") = none := by decide +kernel         -- unknown name
+example : readStr intCodec [0, 1] (str "q0***2") = none := by decide +kernel
+example : readStr intCodec [0, 1] (str "q0++q1") = none := by decide +kernel
+example : readStr intCodec [0, 1] (str "2*") = none := by decide +kernel
+example : readStr intCodec [0, 1] (str "") = none := by decide +kernel
 end Np.PrintText
